@@ -97,6 +97,29 @@ func genC18(c *Ctx) {
 		c.Case(f.name)
 	}
 
+	// 0. runtime support (NOT proof): shutdown at arbitrary moments.  Run first: every later
+	// scenario starts and stops servers, so a Stop that hangs would make the whole run crawl;
+	// in that case the failing shutdown oracle is the finding and the rest is skipped.
+	stopsOK := true
+	for what := 0; what <= 4; what++ {
+		for _, inflight := range []int{0, 1, 3, 16} {
+			for rep := 0; rep < c.N(1, 5); rep++ {
+				if !c.Check("c18.shutdown", U(uint64(what)), U(uint64(inflight))) {
+					stopsOK = false
+				}
+			}
+		}
+	}
+	for what := 0; what < 3; what++ {
+		if !c.Check("c18.stop_twice", U(uint64(what))) {
+			stopsOK = false
+		}
+	}
+	if !stopsOK {
+		c.Note("aborted", "a shutdown oracle failed; the remaining scenarios (which all start and stop servers) were skipped")
+		return
+	}
+
 	// 2. opcode routing: every (R, opcode) with several settings of the other 11 bits, on each server
 	others := []uint16{0x000, 0x7FF, 0x010, 0x100, 0x080, 0x400}
 	for kind := 0; kind <= 5; kind++ {
@@ -283,16 +306,6 @@ func genC18(c *Ctx) {
 	}
 	for _, kind := range []int{3, 4, 5} {
 		c.Check("c18.concurrent_clients", U(uint64(kind)), U(uint64(c.N(8, 24))), U(uint64(c.N(20, 100))))
-	}
-	for what := 0; what <= 4; what++ {
-		for _, inflight := range []int{0, 1, 3, 16} {
-			for rep := 0; rep < c.N(1, 5); rep++ {
-				c.Check("c18.shutdown", U(uint64(what)), U(uint64(inflight)))
-			}
-		}
-	}
-	for what := 0; what < 3; what++ {
-		c.Check("c18.stop_twice", U(uint64(what)))
 	}
 	for rc := 0; rc < 8; rc++ {
 		c.Check("c18.challenge_rcode", U(uint64(rc)))
